@@ -323,6 +323,17 @@ def _r11a_lists(P, R):
     a registry is identified by its type instantiation, whatever holds it: a local, a struct field, ...)"""
     rg = registry(P)
     roles = {rg.set.path: "registers originals", rg.add.path: "registers extensions", rg.into.path: "is consumed"}
+    # who reports extensions without an original?  On the reference tree the consumer does; if it does not fail any more, the list's
+    # other methods that construct the registry's error (besides the one registering originals) carry that duty, and every kind's
+    # registry must be asked
+    if rg.entry is not None and not _err_sites(inlined(P, rg.into), rg):
+        for m_ in P.fns.values():
+            if m_.self_adt == rg.list and not m_.derived and not m_.impl_trait and m_.kind == "AssocFn" \
+                    and m_.path not in (rg.set.path, rg.add.path, rg.into.path) and _err_sites(m_, rg):
+                roles[m_.path] = "has its orphan extensions reported"
+        if len(roles) == 3:
+            R.undecided("R11-a", "orphans", "%s cannot fail and no other method of the registry reports extensions without an original; "
+                        "where orphans are reported is not decided" % rg.into.path, loc=rg.into.loc())
     origs = {orig for _, orig, _ in merge_fns(P)}
     seen = {}
     sc = _scope(P)
@@ -359,8 +370,10 @@ def _r11a_lists(P, R):
             continue
         missing = sorted(set(roles.values()) - got)
         R.check("R11-a", key, not missing, "filled with originals and extensions, consumed",
-                "the registry of %s %s but never %s: those items never reach the merged document"
-                % (orig.split("::")[-1], " and ".join(sorted(got)), " / ".join(missing)), loc=_entry(P).loc())
+                "the registry of %s %s but never %s: %s"
+                % (orig.split("::")[-1], " and ".join(sorted(got)), " / ".join(missing),
+                   "an `extend` item of that kind without a definition is dropped silently instead of being an error"
+                   if missing == ["has its orphan extensions reported"] else "those items never reach the merged document"), loc=_entry(P).loc())
 
 
 def _grown_atoms(h, pv, expr):
@@ -1128,6 +1141,79 @@ def _r11e_input(P, R):
                 else:
                     R.undecided("R11-e", key, "%s replaces a document buffer with `mem::replace`; the resulting order is not decided" % f.path, loc=f.loc())
     R.floor("R11-e", "operations that combine input documents", n, 1)
+    _builtins_appended(P, R, DOC, ITEM)
+
+
+def _builtins_appended(P, R, DOC, ITEM):
+    """built-in definitions (parameterless producers of Vec<definition-or-extension>) are appended to the resolver's input as they
+    are.  A selecting adaptor between producer and `extend` is decided by what it selects on: if the names that suppress a built-in
+    *definition* can come from the target of an `extend` item, a valid extension of a built-in loses its original (VIOLATED);
+    any other filter is UNDECIDED."""
+    producers = {f.path for f in P.fns.values() if not f.sig_inputs and f.kind == "Fn" and not f.derived and "::tests" not in f.path
+                 and (f.sig_output or "") == "alloc::vec::Vec<%s>" % ITEM}
+    sink = "<%s as core::iter::traits::collect::Extend>::extend" % DOC
+    ext_adts = {norm(v["fields"][0]["ty"]) for v in P.adt(TS + "TypeExtension").variants if len(v["fields"]) == 1} | {TS + "SchemaExtension"}
+    n = 0
+    for h in sorted(P.fns.values(), key=lambda x: x.path):
+        if h.derived or "::tests" in h.path or h.kind not in ("Fn", "AssocFn"):
+            continue
+        sinks = [c for c in h.walk() if c.get("k") == "MethodCall" and call_name(c) == sink and c["args"]]
+        if not sinks:
+            continue
+        pv = Prov(h)
+        for c in sinks:
+            da = pv.deep_atoms(c["args"][0])
+            prods = sorted(x[1] for x in da if x[0] == "call" and x[1] in producers)
+            if not prods:
+                continue
+            n += 1
+            key = "builtins-appended:%s:%s" % (h.name, "+".join(short(p_).split("::")[-1] for p_ in prods))
+            # the expressions the appended value is made of: the argument, the locals it depends on, same-crate helpers it goes through
+            exprs, todo, seen_l = [(h, c["args"][0])], [c["args"][0]], set()
+            while todo:
+                e = todo.pop()
+                for y in subnodes(e):
+                    if y.get("k") == "Path" and "local" in y and y["local"] not in seen_l:
+                        seen_l.add(y["local"])
+                        for src, _x in pv.src.get(y["local"], []):
+                            if src is not None:
+                                exprs.append((h, src))
+                                todo.append(src)
+            helpers = set()
+            for _g, e in list(exprs):
+                for y in subnodes(e):
+                    cn = call_name(y) if y.get("k") in ("Call", "MethodCall") else None
+                    g2 = P.fns.get(cn) if cn else None
+                    if g2 is not None and g2.crate == h.crate and cn not in producers and not g2.derived:
+                        helpers.add(cn)
+            for cn in sorted(helpers):
+                exprs.append((P.fns[cn], P.fns[cn].body))
+            filters = [(g, y) for g, e in exprs for y in subnodes(e)
+                       if y.get("k") == "MethodCall" and y["method"] in (LOSSY_OR_REORDERING - {"insert", "remove", "pop", "clear"}) | {"filter", "filter_map", "retain"}
+                       and re.search(r"\b%s\b" % ITEM.split("::")[-1], norm(y["recv"].get("t") or "") or "")]
+            if not filters:
+                R.holds("R11-e", key, "appended as produced", loc=h.loc())
+                continue
+            leaked = set()
+            for g, y in filters:
+                gpv = Prov(g)
+                consulted = set()
+                for z in subnodes(y):
+                    if z.get("k") == "MethodCall" and z["method"] in ("contains", "contains_key", "get") and _strip_deref(z["recv"]).get("k") == "Path":
+                        consulted.add(_strip_deref(z["recv"]).get("local"))
+                for z in g.walk():
+                    if z.get("k") == "MethodCall" and z["args"] and z["method"] in ("insert", "extend", "push") \
+                            and _strip_deref(z["recv"]).get("k") == "Path" and _strip_deref(z["recv"]).get("local") in consulted:
+                        for a_ in z["args"]:
+                            leaked |= {x[1].split("::")[-1] for x in gpv.deep_atoms(a_) if x[0] == "field" and x[1] in ext_adts and x[2] == "name"}
+            if leaked:
+                R.violated("R11-e", key, "%s appends the built-in definitions only if their name is not in a set that is also filled from the "
+                           "*targets of `extend` items* (%s.name): an extension of a built-in type suppresses the built-in it extends and is then "
+                           "an extension without original" % (h.path, "/".join(sorted(leaked))), loc=h.loc())
+            else:
+                R.undecided("R11-e", key, "%s passes the built-in definitions through %s before appending them; what it selects on is not decided"
+                            % (h.path, sorted({y["method"] for _g, y in filters})), loc=h.loc())
+    R.floor("R11-e", "places that append built-in definitions to the schema document", n, 1)
 
 
 RULES = [("R11-a", r11a), ("R11-b", r11b), ("R11-d", r11d), ("R11-e", r11e)]
